@@ -5,6 +5,18 @@ HERE = os.path.dirname(os.path.dirname(os.path.abspath(__file__)))
 ALL = ['C%02d' % i for i in range(1, 21)]
 
 CLAIMED = {
+ 'C10': dict(
+    level='model_checking',
+    text='QB.tla carries the error-handler state (mode, handler, active, kind of the last error, resume point) and gives the meaning of ON '
+         'ERROR GOTO / RESUME NEXT / GOTO 0, RESUME, RESUME NEXT and ERR. MC_Handlers.tla enumerates the scenarios: a module body of up to K '
+         'failing-capable statements (division, subscript, ASC, overflow, MID$, an error with operands pending deep inside an expression, an '
+         'error inside a FUNCTION, a statement whose FUNCTION already printed), which of them fail, and 8 handler regimes; after the body the '
+         'program continues with GOSUB/RETURN, a SUB call, a FOR loop and the fall-off end. Each program is compiled with -g at every level '
+         'and run; Trace_QB.tla validates all events (ERR values included) and the outcome, and Trace_QVMSafe.tla checks on the tick trace that '
+         'after resuming the operand stack is back at the statement-boundary depth and no machine-level fault occurs.',
+    note='Trusted: TLC, scenario instantiation, event observer, tick recorder. RESUME after an error inside a procedure is outside the property and not generated; ERR is compared with the code of the error class the cause demands (numbering taken from the tree).',
+    technique='TLA+ source semantics with handler state; TLC-enumerated scenarios; trace validation at source and machine level',
+    design='6 C10'),
  'C11': dict(
     level='model_checking',
     text='DebugMap.tla states the well-formedness of a debug map as predicates over the decoded instruction starts, the statement and '
